@@ -52,12 +52,12 @@ PendAlive(s, pd) ==   \* offers die with the offering entry
 
 (* closed_calls (the ConnectionClosed contents) are logged by the API-level executor only; *)
 (* end-to-end traces of running trackers do not observe them                               *)
-Calls(e) == IF "closed_calls" \in DOMAIN e THEN e.closed_calls ELSE <<"unobserved">>
+Calls(e) == e
 
-CloseEffects(c, calls) ==
-    /\ calls # <<"unobserved">> =>
-         /\ {<<x[1], x[2]>> : x \in SeqRange(calls)} = {<<h, Ann(c)[h]>> : h \in DOMAIN Ann(c)}
-         /\ Len(calls) = Cardinality(DOMAIN Ann(c))
+CloseEffects(c, e) ==
+    /\ ("closed_calls" \in DOMAIN e) =>
+         /\ {<<x[1], x[2]>> : x \in SeqRange(e.closed_calls)} = {<<h, Ann(c)[h]>> : h \in DOMAIN Ann(c)}
+         /\ Len(e.closed_calls) = Cardinality(DOMAIN Ann(c))
     /\ store' = StoreWithout(c)
     /\ pend' = PendAlive(StoreWithout(c), pend)
     /\ ann' = FnDel(ann, c)
